@@ -21,7 +21,7 @@ RULE = ("the whole space is enumerated in both tiers: get_all_tokenizers() (5,87
         "digests of each tokenizer's parameters (read back from the object's attributes) with an explicit nested-loop reference "
         "enumeration of the documented validity rules (exactly once, nothing else, predicted size 9*216*1008*3); all names are "
         "digested and must be pairwise distinct; all_instances(cls, validation_funcs) for every element class against the loops; "
-        "hash()/hash_int() distinctness (sample in quick, all in thorough); names and hashes of sampled tokenizers recomputed in "
+        "hash()/hash_int()/hash_b64() distinctness (an evenly spaced sample of ~400,000 in quick, all in thorough); names and hashes of sampled tokenizers recomputed in "
         "fresh processes with PYTHONHASHSEED in {0,1,777}; load(serialize()) and zanj save/read on a pairwise covering set; "
         "name and hashes of a tokenizer must be the same after it has tokenized mazes, equal to those of an unused twin, and survive save/load of the used object; "
         "from_legacy(mode) must be legacy-equivalent and no other tokenizer may claim to be (sample in quick, all in thorough). "
@@ -33,7 +33,7 @@ EXHAUSTIVE = {"quick": True, "thorough": True}
 NSHARDS = {"quick": 4, "thorough": 4}
 EXPECTED = 9 * 216 * 1008 * 3
 THRESHOLDS = {"quick": {"c15:enumerated": EXPECTED, "c15:reference-enumerated": EXPECTED, "c15:names-digested": EXPECTED,
-                        "c15:element-classes": 10, "c15:hash-checked": 150000, "c15:cross-process": 1500, "c15:hashseeds": 3,
+                        "c15:element-classes": 10, "c15:hash-checked": 300000, "c15:cross-process": 1500, "c15:hashseeds": 3,
                         "c15:save-load": 300, "c15:identity-after-use": 250, "c15:zanj-file": 30, "c15:legacy-checked": 40000, "c15:from_legacy": 3,
                         "c15:legacy-neighbours": 20}}
 THRESHOLDS["thorough"] = {**THRESHOLDS["quick"], "c15:hash-checked": EXPECTED, "c15:legacy-checked": EXPECTED, "c15:save-load": 2000}
@@ -107,7 +107,7 @@ def enumeration(ctx):
     ctx.check(all(type(t) is MazeTokenizerModular for t in toks[:: max(1, N // 1000)]), "C15/enumeration-yields-foreign-objects", "", None)
     out = ctx.work
     full_hash = not ctx.quick
-    step_h = 1 if full_hash else max(1, N // 200000)
+    step_h = 1 if full_hash else max(1, N // 400000)
 
     def work(w):
         lo, hi = w * N // NW, (w + 1) * N // NW
@@ -117,7 +117,7 @@ def enumeration(ctx):
             pd += dg(canon_obj(t))
             nd += hashlib.blake2b(t.name.encode(), digest_size=16).digest()
             if (i % step_h) == 0:
-                hh.append((i, hash(t), t.hash_int()))
+                hh.append((i, hash(t), t.hash_int(), t.hash_b64()))
             if full_hash or (i % 137) == 0:
                 if t.is_legacy_equivalent():
                     leg.append(i)
@@ -126,7 +126,7 @@ def enumeration(ctx):
         with open(os.path.join(out, f"n-{w}.bin"), "wb") as f:
             f.write(nd)
         with open(os.path.join(out, f"h-{w}.json"), "w") as f:
-            json.dump(dict(h=[(i, str(a), str(b)) for i, a, b in hh], leg=leg,
+            json.dump(dict(h=[(i, str(a), str(b), str(c)) for i, a, b, c in hh], leg=leg,
                            leg_checked=(hi - lo) if full_hash else len(range(lo + (-lo) % 137, hi, 137))), f)
 
     st = _fork_map(NW, work, out, "enum")
@@ -181,10 +181,13 @@ def enumeration(ctx):
         ctx.violation("C15/two-tokenizers-share-a-name", f"{len(names) - len(un)} name clashes among {len(names)} tokenizers", None)
     ctx.digests.update(bytes(x)[:8] for x in ug[:: max(1, len(ug) // 50000)])  # sample of distinct configurations for the evidence counter
     # hashes + legacy
-    hs = {}; hi_ = {}; leg = []; legc = 0; nh = 0
+    hs = {}; hi_ = {}; hb_ = {}; leg = []; legc = 0; nh = 0
     for w in range(NW):
         d = json.load(open(os.path.join(out, f"h-{w}.json")))
-        for i, a, b in d["h"]:
+        for i, a, b, c in d["h"]:
+            if c in hb_:
+                ctx.violation("C15/two-tokenizers-share-a-hash_b64", f"hash_b64() {c}: {toks[hb_[c]].name} and {toks[i].name}", None)
+            hb_[c] = i
             nh += 1
             if a in hs:
                 ctx.violation("C15/two-tokenizers-share-a-hash", f"hash() {a}: {toks[hs[a]].name} and {toks[i].name}", None)
